@@ -13,6 +13,7 @@ import (
 	"path/filepath"
 	"sort"
 	"strings"
+	"syscall"
 )
 
 var _ = verifRegister("C20", engineC20)
@@ -20,10 +21,12 @@ var _ = verifRegister("C20", engineC20)
 type c20Node struct {
 	name  string
 	isDir bool
+	link  bool // symlink
+	fifo  bool // named pipe
 	kids  []*c20Node
 }
 
-var c20Names = []string{"a", "b", "ab", "c", "x.go", "y.go", "A", "Ab", "d", "README", "b.txt", "a*", "sub"}
+var c20Names = []string{"a", "b", "ab", "c", "x.go", "y.go", "A", "Ab", "d", "README", "b.txt", "a*", "sub", "lnk", "cur", "pipe"}
 
 func c20Gen(rng *vrng, depth int, maxKids int) []*c20Node {
 	n := 1 + rng.intn(maxKids)
@@ -36,7 +39,11 @@ func c20Gen(rng *vrng, depth int, maxKids int) []*c20Node {
 		}
 		seen[nm] = true
 		nd := &c20Node{name: nm}
-		if depth > 0 && !strings.Contains(nm, ".") && rng.chance(55) {
+		if nm == "lnk" || nm == "cur" {
+			nd.link = true
+		} else if nm == "pipe" {
+			nd.fifo = true
+		} else if depth > 0 && !strings.Contains(nm, ".") && rng.chance(55) {
 			nd.isDir = true
 			if rng.chance(85) {
 				nd.kids = c20Gen(rng, depth-1, maxKids)
@@ -56,6 +63,14 @@ func c20Materialize(dir string, nodes []*c20Node, rng *vrng) error {
 				return err
 			}
 			if err := c20Materialize(p, n.kids, rng); err != nil {
+				return err
+			}
+		} else if n.link {
+			if err := os.Symlink("target-of-"+n.name, p); err != nil {
+				return err
+			}
+		} else if n.fifo {
+			if err := syscall.Mkfifo(p, 0o644); err != nil {
 				return err
 			}
 		} else if err := os.WriteFile(p, []byte("content of "+n.name+fmt.Sprint(rng.intn(1000))), 0o644); err != nil {
@@ -80,6 +95,8 @@ func c20Paths(loc string, nodes []*c20Node, out *[][2]string) {
 		d := "f"
 		if n.isDir {
 			d = "d"
+		} else if n.link || n.fifo {
+			d = "s"
 		}
 		*out = append(*out, [2]string{p, d})
 		c20Paths(p, n.kids, out)
@@ -106,6 +123,22 @@ func c20Pattern(rng *vrng, paths [][2]string) string {
 		return rng.pick("nomatch", "/nomatch/x", "*.zip", "/a/b/c/d/e")
 	}
 	p := paths[rng.intn(len(paths))][0]
+	if rng.chance(30) {
+		// a symlink / fifo selected on its own: by full location or by base name
+		var sp []string
+		for _, x := range paths {
+			if x[1] == "s" {
+				sp = append(sp, x[0])
+			}
+		}
+		if len(sp) > 0 {
+			q := sp[rng.intn(len(sp))]
+			if rng.chance(50) {
+				return q
+			}
+			return q[strings.LastIndex(q, "/")+1:]
+		}
+	}
 	cs := strings.Split(p[1:], "/")
 	for i := range cs {
 		if strings.Contains(cs[i], "*") {
@@ -168,6 +201,7 @@ func engineC20(c *vctx) error {
 				{name: "A", isDir: true, kids: []*c20Node{{name: "x.go"}}},
 				{name: "a", isDir: true, kids: []*c20Node{{name: "b", isDir: true, kids: []*c20Node{{name: "c"}, {name: "x.go"}}}, {name: "d", isDir: true}, {name: "y.go"}}},
 				{name: "b", isDir: true, kids: []*c20Node{{name: "a", isDir: true, kids: []*c20Node{{name: "b"}}}}},
+				{name: "links", isDir: true, kids: []*c20Node{{name: "current", link: true}, {name: "deep", isDir: true, kids: []*c20Node{{name: "old", link: true}, {name: "pipe", fifo: true}}}}},
 				{name: "x.go"},
 			}
 		default:
@@ -194,8 +228,8 @@ func engineC20(c *vctx) error {
 		treeTerm := c20Term(top)
 		for ri := 0; ri < nrest; ri++ {
 			mode := []string{"MInclude", "MExclude", "MInclude", "MExclude", "MAll"}[rng.intn(5)]
-			if ti == 0 && ri < 4 {
-				mode = []string{"MInclude", "MExclude", "MExclude", "MExclude"}[ri]
+			if ti == 0 && ri < 7 {
+				mode = []string{"MInclude", "MExclude", "MExclude", "MExclude", "MInclude", "MInclude", "MInclude"}[ri]
 			}
 			del := rng.chance(50)
 			var pats, ipats []string
@@ -222,6 +256,15 @@ func engineC20(c *vctx) error {
 			if ti == 0 && ri == 3 { // negated exclude at the same level: re-included
 				pats, ipats, del = []string{"/a/*", "!/a/b"}, nil, true
 			}
+			if ti == 0 && ri == 4 { // a symlink alone in an unselected directory: its parents must be created for it
+				pats, ipats, del = []string{"/links/current"}, nil, false
+			}
+			if ti == 0 && ri == 5 { // by base name, next to a regular file elsewhere
+				pats, ipats, del = []string{"old", "/a/y.go"}, nil, false
+			}
+			if ti == 0 && ri == 6 { // a fifo alone
+				pats, ipats, del = []string{"/links/deep/pipe"}, nil, true
+			}
 			if ti == 0 && ri == 1 {
 				pats, ipats, del = []string{"/a/b", "*.GO"}, []string{"/B/A"}, true
 			}
@@ -232,6 +275,9 @@ func engineC20(c *vctx) error {
 			}
 			var extras [][2]string
 			nx := rng.intn(4)
+			if ti == 0 && ri >= 4 && ri <= 6 {
+				nx = 0
+			}
 			for i := 0; i < nx; i++ {
 				loc := ""
 				if len(dirs) > 0 && rng.chance(70) {
@@ -286,9 +332,9 @@ func engineC20(c *vctx) error {
 			if del {
 				args = append(args, "--delete")
 			}
-			_, se, err := e.cli(args...)
-			if err != nil {
-				return fmt.Errorf("restore %v: %v %s", args, err, se)
+			_, _, rerr := e.cli(args...)
+			if rerr != nil {
+				c.Hist("restore-reported-errors")
 			}
 			var obs []string
 			_ = filepath.Walk(target, func(p string, _ os.FileInfo, err error) error {
@@ -324,7 +370,7 @@ func engineC20(c *vctx) error {
 			}
 			c.Hist(fmt.Sprintf("restored-entries=%d", min(len(obs)/4*4, 12)))
 			c.Case(kind, mode != "MAll" && len(paths) >= 3, len(paths)+len(pats)+len(ipats)+len(extras), term,
-				fmt.Sprintf("tree=%d nodes mode=%s pats=%q ipats=%q delete=%v extras=%v -> %q", len(paths), mode, pats, ipats, del, extras, obs))
+				fmt.Sprintf("tree=%d nodes mode=%s pats=%q ipats=%q delete=%v extras=%v -> %q err=%v", len(paths), mode, pats, ipats, del, extras, obs, rerr))
 		}
 	}
 	return nil
